@@ -8,20 +8,157 @@ import (
 	"golang.org/x/tools/go/ssa"
 )
 
-// traceState: per-activation ghost trace of direct calls to traced callees (filled in by trace.go).
-type traceState struct{}
+// Activation trace: for the function under verification, the sequence of its DIRECT calls to traced callees
+// (callees whose contract has a "traced" clause): trCallee[k], trArg[k] (key argument at the call), trRes[k]
+// (result after the call), k < trN. The trace is local to the activation: callees do not change it, and every
+// function starts with an empty one. "Exactly once, in this order" is then a statement about trN and the arrays.
+type traceState struct{ last Term }
 
-func (e *Enc) initTrace(st *State) {}
+var traceComps = []string{"X:trN", "X:trCallee", "X:trArg", "X:trRes"}
 
-func (e *Enc) traceCallHook(st *State, c *ssa.CallCommon, key string, args []Val, sc *SCtx) {}
+func (e *Enc) traceSort(name string) string {
+	if name == "X:trN" {
+		return SInt
+	}
+	return arrSort(SInt, SInt)
+}
+
+func (e *Enc) usesTrace() bool {
+	for _, b := range e.fn.Blocks {
+		for _, ins := range b.Instrs {
+			if c, ok := ins.(ssa.CallInstruction); ok {
+				if ct, _ := e.calleeContract(c.Common()); ct != nil && ct.TracedArg != nil {
+					return true
+				}
+			}
+		}
+	}
+	return false
+}
+
+func (e *Enc) initTrace(st *State) {
+	if e.fn == nil || !e.usesTrace() {
+		return
+	}
+	e.trace = &traceState{}
+	for _, n := range traceComps {
+		e.compSort[n] = e.traceSort(n)
+	}
+	st.heaps["X:trN"] = I(0)
+}
+
+func (e *Enc) traceCallHook(st *State, c *ssa.CallCommon, key string, args []Val, sc *SCtx) {
+	if e.trace == nil || sc == nil {
+		return
+	}
+	ct := e.P.Spec.Contracts[key]
+	if ct == nil || ct.TracedArg == nil {
+		return
+	}
+	v, _, err := sc.eval(ct.TracedArg)
+	if err != nil {
+		e.unsupported = "traced argument of " + key + ": " + err.Error()
+		return
+	}
+	k := e.def("trk", e.comp(st, "X:trN", SInt))
+	as := arrSort(SInt, SInt)
+	st.heaps["X:trCallee"] = e.def("trc", Store(e.comp(st, "X:trCallee", as), k, I(int64(funcID(key)))))
+	st.heaps["X:trArg"] = e.def("tra", Store(e.comp(st, "X:trArg", as), k, e.asTerm(st, v)))
+	st.heaps["X:trN"] = e.def("trn", Add(k, I(1)))
+	e.trace.last = k
+}
 
 func (e *Enc) traceAfterHook(st *State, c *ssa.CallCommon, key string, r Val) {}
 
+// traceAfter records the result of a traced call (sc: callee context after the call, results bound).
+func (e *Enc) traceAfter(st *State, key string, sc *SCtx) {
+	if e.trace == nil {
+		return
+	}
+	ct := e.P.Spec.Contracts[key]
+	if ct == nil || ct.TracedArg == nil || ct.TracedRes == nil {
+		return
+	}
+	v, _, err := sc.eval(ct.TracedRes)
+	if err != nil {
+		e.unsupported = "traced result of " + key + ": " + err.Error()
+		return
+	}
+	as := arrSort(SInt, SInt)
+	st.heaps["X:trRes"] = e.def("trr", Store(e.comp(st, "X:trRes", as), e.trace.last, e.asTerm(st, v)))
+}
+
 func (sc *SCtx) traceCall(x SCall) (Val, types.Type, error) { return Val{}, nil, nil }
+
+// resolveFuncName: "walkExpr" -> "astutil.walkExpr" (package of the contract), or a full key.
+func (sc *SCtx) resolveFuncName(name string) (string, error) {
+	e := sc.e
+	if _, ok := e.P.Spec.Contracts[name]; ok {
+		return name, nil
+	}
+	if sc.pkg != nil {
+		k := pkgShort(sc.pkg) + "." + name
+		if _, ok := e.P.Spec.Contracts[k]; ok {
+			return k, nil
+		}
+	}
+	if e.pkg != nil {
+		k := pkgShort(e.pkg) + "." + name
+		if _, ok := e.P.Spec.Contracts[k]; ok {
+			return k, nil
+		}
+	}
+	return "", fmt.Errorf("unknown function %q in trace expression", name)
+}
 
 func (sc *SCtx) traceBuiltin(x SCall) (Val, types.Type, bool, error) {
 	e := sc.e
+	as := arrSort(SInt, SInt)
 	switch x.Fun {
+	case "ncalls":
+		return tv(e.comp(sc.st, "X:trN", SInt)), nil, true, nil
+	case "calleeIs":
+		j, _, err := sc.eval(x.Args[0])
+		if err != nil {
+			return Val{}, nil, true, err
+		}
+		sl, ok := x.Args[1].(SStrLit)
+		if !ok {
+			return Val{}, nil, true, fmt.Errorf("calleeIs(j, \"name\")")
+		}
+		key, err := sc.resolveFuncName(sl.Val)
+		if err != nil {
+			return Val{}, nil, true, err
+		}
+		return tv(Eq(Select(e.comp(sc.st, "X:trCallee", as), j.T), I(int64(funcID(key))))), types.Typ[types.Bool], true, nil
+	case "arg", "res":
+		j, _, err := sc.eval(x.Args[0])
+		if err != nil {
+			return Val{}, nil, true, err
+		}
+		name := "X:trArg"
+		if x.Fun == "res" {
+			name = "X:trRes"
+		}
+		return tv(Select(e.comp(sc.st, name, as), j.T)), nil, true, nil
+	case "childrenWalked", "knownNode":
+		// childrenWalked(n, "ast.Stmt"): for every concrete node type T of package ast implementing the interface,
+		// if n is a *T then every child field of T (read off the type declaration with go/types) was walked.
+		// knownNode(n, I): n is nil or one of those concrete types (the trees the parser builds).
+		v, _, err := sc.eval(x.Args[0])
+		if err != nil {
+			return Val{}, nil, true, err
+		}
+		sl, ok := x.Args[1].(SStrLit)
+		if !ok {
+			return Val{}, nil, true, fmt.Errorf("%s(n, \"ast.Stmt\")", x.Fun)
+		}
+		kind := strings.TrimPrefix(sl.Val, "ast.")
+		if kind != "Expr" && kind != "Stmt" && kind != "Operator" {
+			return Val{}, nil, true, fmt.Errorf("%s: ast.Expr, ast.Stmt or ast.Operator expected", x.Fun)
+		}
+		t, err := sc.childrenFormula(x.Fun == "knownNode", v.T, kind)
+		return tv(t), types.Typ[types.Bool], true, err
 	case "lockstate":
 		// lockstate(e): 0 = not held by this activation, 1 = read-locked, 2 = write-locked
 		v, t, err := sc.eval(x.Args[0])
@@ -322,4 +459,115 @@ func (e *Enc) lockAtReturn(st *State, ins *ssa.Return) {
 	}
 	hs := arrSort(SInt, SInt)
 	e.oblige("lock", "balanced", lockProps, st.reach, Eq(e.comp(st, "X:held", hs), e.comp(e.pre, "X:held", hs)), "every lock taken by the function is released on this exit", ins.Pos())
+}
+
+// astNodeTypes: the concrete node types (*ast.T) of package ast that implement iface, in name order.
+func (P *Prog) astNodeTypes(kind string) []*types.Named {
+	pkg := P.ByName["ast"]
+	if pkg == nil {
+		return nil
+	}
+	var out []*types.Named
+	names := pkg.Scope().Names()
+	for _, n := range names {
+		tn, ok := pkg.Scope().Lookup(n).(*types.TypeName)
+		if !ok {
+			continue
+		}
+		named, ok := tn.Type().(*types.Named)
+		if !ok {
+			continue
+		}
+		if _, isStruct := named.Underlying().(*types.Struct); !isStruct {
+			continue
+		}
+		// the three node interfaces are structurally identical (all are just Pos); a node's class is the
+		// <Kind>Impl struct it embeds
+		// <Kind>Impl struct it embeds — except that package ast's naming convention wins where the two disagree
+		// (DeleteStmt and ChanStmt embed ExprImpl but are built and used as statements by the parser)
+		st := named.Underlying().(*types.Struct)
+		isNode := false
+		for i := 0; i < st.NumFields(); i++ {
+			if f := st.Field(i); f.Embedded() {
+				if fn, ok := f.Type().(*types.Named); ok && strings.HasSuffix(fn.Obj().Name(), "Impl") {
+					isNode = true
+				}
+			}
+		}
+		if isNode && strings.HasSuffix(named.Obj().Name(), kind) {
+			out = append(out, named)
+		}
+	}
+	return out
+}
+
+func (sc *SCtx) childrenFormula(knownOnly bool, n Term, kind string) (Term, error) {
+	e := sc.e
+	e.declIface()
+	kindOf := func(t types.Type) string {
+		if nn, ok := t.(*types.Named); ok && nn.Obj().Pkg() != nil && nn.Obj().Pkg().Name() == "ast" && isAnkoPkg(nn.Obj().Pkg()) {
+			switch nn.Obj().Name() {
+			case "Expr":
+				return "E"
+			case "Stmt":
+				return "S"
+			case "Operator":
+				return "O"
+			}
+		}
+		return ""
+	}
+	var conj []Term
+	var known []Term
+	for _, T := range e.P.astNodeTypes(kind) {
+		pt := types.NewPointer(T)
+		is := Eq(app(SInt, "dyn", n), e.tid(pt))
+		known = append(known, is)
+		if knownOnly {
+			continue
+		}
+		obj := app(SInt, "ival", n)
+		st := T.Underlying().(*types.Struct)
+		var cs []Term
+		for i := 0; i < st.NumFields(); i++ {
+			f := st.Field(i)
+			if f.Embedded() {
+				continue
+			}
+			var fn string
+			if k := kindOf(f.Type()); k != "" {
+				fn = "walked" + k
+			} else if sl, ok := f.Type().Underlying().(*types.Slice); ok {
+				if k := kindOf(sl.Elem()); k != "" {
+					fn = "walked" + k + "s"
+				}
+			}
+			if fn == "" {
+				continue
+			}
+			fa := e.fieldAddr(obj, T, i)
+			if fa.A == nil {
+				continue
+			}
+			n2 := *sc
+			n2.vars = map[string]Val{}
+			n2.vtypes = map[string]types.Type{}
+			for k, v := range sc.vars {
+				n2.vars[k] = v
+				n2.vtypes[k] = sc.vtypes[k]
+			}
+			n2.vars["$child"] = tv(e.load(sc.st, fa.A))
+			n2.vtypes["$child"] = f.Type()
+			t, err := n2.evalBool(SCall{Fun: fn, Args: []SExpr{SIdent{"$child"}}})
+			if err != nil {
+				return Term{}, fmt.Errorf("childrenWalked: %s.%s: %v", T.Obj().Name(), f.Name(), err)
+			}
+			cs = append(cs, t)
+		}
+		conj = append(conj, Imp(is, And(cs...)))
+	}
+	if knownOnly {
+		return Or(append(known, Eq(n, I(0)))...), nil
+	}
+	return And(conj...), nil
 }
